@@ -55,6 +55,9 @@ impl K {
 pub enum Upd {
     Counter(K, u32),
     Histogram(K, f64),
+    /// Histogram::record_many(value, count): count samples of one value in one call
+    #[serde(alias = "HistMany")]
+    HistogramMany(K, f64, u8),
     Pause(u8),
 }
 
@@ -222,6 +225,16 @@ pub fn check(case: &Case) -> CaseResult {
                         let clamped = if *v > u32::MAX as f64 { u32::MAX } else { *v as u32 };
                         recorded.entry(k).or_default().push(clamped);
                     }
+                    Upd::HistogramMany(k, v, c) => {
+                        let k = K { name: 1, labels: k.labels }.norm();
+                        let clamped = if *v > u32::MAX as f64 { u32::MAX } else { *v as u32 };
+                        for _ in 0..*c {
+                            recorded.entry(k).or_default().push(clamped);
+                        }
+                        if *c > 0 {
+                            classes.push("record-many");
+                        }
+                    }
                     Upd::Pause(_) => {}
                 }
             }
@@ -233,7 +246,7 @@ pub fn check(case: &Case) -> CaseResult {
                     .iter()
                     .filter_map(|u| match u {
                         Upd::Counter(k, _) => Some(K { name: 0, labels: k.labels }.norm()),
-                        Upd::Histogram(k, _) => Some(K { name: 1, labels: k.labels }.norm()),
+                        Upd::Histogram(k, _) | Upd::HistogramMany(k, _, _) => Some(K { name: 1, labels: k.labels }.norm()),
                         _ => None,
                     })
                     .collect();
@@ -258,6 +271,10 @@ pub fn check(case: &Case) -> CaseResult {
                             Upd::Histogram(k, v) => {
                                 let k = K { name: 1, labels: k.labels };
                                 rec.register_histogram(&k.key(), &meta()).record(*v);
+                            }
+                            Upd::HistogramMany(k, v, c) => {
+                                let k = K { name: 1, labels: k.labels };
+                                rec.register_histogram(&k.key(), &meta()).record_many(*v, *c as usize);
                             }
                             Upd::Pause(p) => crate::bq::jitter(*p),
                         }
@@ -421,6 +438,16 @@ fn arb_upd() -> impl Strategy<Value = Upd> {
             ]
         )
             .prop_map(|(k, v)| Upd::Histogram(k, v)),
+        2 => (
+            arb_k(),
+            prop_oneof![
+                3 => (0u32..64).prop_map(|x| x as f64),
+                3 => any::<u32>().prop_map(|x| x as f64),
+                2 => prop::sample::select(vec![4294967295.0f64, 4294967296.0, 5e9, 1e12, 1e300, 31.999, 32.0]),
+            ],
+            prop_oneof![Just(0u8), Just(1u8), 2u8..40]
+        )
+            .prop_map(|(k, v, c)| Upd::HistogramMany(k, v, c)),
         2 => any::<u8>().prop_map(Upd::Pause),
     ]
 }
@@ -652,12 +679,12 @@ pub fn run(ctx: &mut Ctx) {
     ctx.explore(
         SubCfg::new(
             "c20-bridge",
-            "MetricRecorder<dyn metrics::Recorder> driven through the metrics 0.24 Recorder trait: 1-3 phases, each with describe calls (before or after first registration), 1-8 updater threads running generated scripts over 3 names x 3 label sets (counter increments incl. 0 and u32::MAX, histogram samples 0..2^32 and over-range, pauses), one gauge writer, and a reader thread calling readout() at generated points WHILE the updaters run, plus a readout after the join. Oracle: per counter key the readout deltas sum to the increments; per histogram key the bucket counts sum to the number of samples and, sorted pairwise, each reported value is exact below 32 and within 1/16 above; the final gauge equals the last value set; every readout replayed into a RecLog writes the injected timestamp, AllowSplitEntries before any value, each metric under its registered name with its labels as dimensions and the described unit; the readout entry is accepted by Emf::all_validations. Non-trivial = >=2 updater threads on the same key with a readout running concurrently",
+            "MetricRecorder<dyn metrics::Recorder> driven through the metrics 0.24 Recorder trait: 1-3 phases, each with describe calls (before or after first registration), 1-8 updater threads running generated scripts over 3 names x 3 label sets (counter increments incl. 0 and u32::MAX, histogram samples 0..2^32 and over-range through record and record_many, pauses), one gauge writer, and a reader thread calling readout() at generated points WHILE the updaters run, plus a readout after the join. Oracle: per counter key the readout deltas sum to the increments; per histogram key the bucket counts sum to the number of samples and, sorted pairwise, each reported value is exact below 32 and within 1/16 above; the final gauge equals the last value set; every readout replayed into a RecLog writes the injected timestamp, AllowSplitEntries before any value, each metric under its registered name with its labels as dimensions and the described unit; the readout entry is accepted by Emf::all_validations. Non-trivial = >=2 updater threads on the same key with a readout running concurrently",
             if q { 3_000 } else { 60_000 },
         )
         .threads(ctx.tier.pick(2, 4))
         .shrink_iters(150)
-        .mandatory(&["multi-thread", "describe", "emit-zero-counters"]),
+        .mandatory(&["multi-thread", "describe", "emit-zero-counters", "record-many"]),
         || {
             (
                 prop::collection::vec(
